@@ -8,6 +8,7 @@ package main
 // integer variables to affine forms over the atoms.
 
 import (
+	"fmt"
 	"go/ast"
 	"go/token"
 	"go/types"
@@ -198,12 +199,17 @@ type linEnv struct {
 	defs  map[types.Object][]ast.Expr
 	atoms map[string]bool
 	lens  map[string]bool // atoms known to be >= 0 (lengths)
+	// elements of small local arrays addressed with constant indexes: "name[i]" -> affine value
+	elems map[string]linForm
 }
 
 func (e *linEnv) clone() *linEnv {
-	n := &linEnv{info: e.info, vars: map[types.Object]linForm{}, defs: e.defs, atoms: e.atoms, lens: e.lens}
+	n := &linEnv{info: e.info, vars: map[types.Object]linForm{}, defs: e.defs, atoms: e.atoms, lens: e.lens, elems: map[string]linForm{}}
 	for k, v := range e.vars {
 		n.vars[k] = v
+	}
+	for k, v := range e.elems {
+		n.elems[k] = v
 	}
 	return n
 }
@@ -215,9 +221,23 @@ func (e *linEnv) form(x ast.Expr, depth int) (linForm, bool) {
 	}
 	switch t := x.(type) {
 	case *ast.Ident:
+		if t.Name == "true" || t.Name == "false" {
+			if _, isConst := e.info.ObjectOf(t).(*types.Const); isConst {
+				if t.Name == "true" {
+					return lfConst(1), true
+				}
+				return lfConst(0), true
+			}
+		}
 		o := e.info.ObjectOf(t)
 		if f, ok := e.vars[o]; ok {
 			return f, true
+		}
+		if v, isVar := o.(*types.Var); isVar {
+			if b, ok := v.Type().Underlying().(*types.Basic); ok && b.Kind() == types.Bool {
+				e.atoms[t.Name] = true
+				return lfAtom(t.Name), true
+			}
 		}
 		if ds := e.defs[o]; len(ds) == 1 && ds[0] != nil && depth < 4 {
 			if f, ok := e.form(ds[0], depth+1); ok {
@@ -243,6 +263,20 @@ func (e *linEnv) form(x ast.Expr, depth int) (linForm, bool) {
 		}
 		if tv, ok := e.info.Types[t.Fun]; ok && tv.IsType() && len(t.Args) == 1 {
 			return e.form(t.Args[0], depth)
+		}
+	case *ast.IndexExpr:
+		// element of a local array with a constant index
+		if id, ok := ast.Unparen(t.X).(*ast.Ident); ok {
+			if k, ok := constInt(e.info, t.Index); ok {
+				if _, isArr := e.info.TypeOf(t.X).Underlying().(*types.Array); isArr {
+					key := fmt.Sprintf("%s[%d]", id.Name, k)
+					if f, ok := e.elems[key]; ok {
+						return f, true
+					}
+					e.atoms[key] = true
+					return lfAtom(key), true
+				}
+			}
 		}
 	case *ast.BinaryExpr:
 		l, ok1 := e.form(t.X, depth)
@@ -278,6 +312,18 @@ func (e *linEnv) form(x ast.Expr, depth int) (linForm, bool) {
 // is then dropped, which only weakens what is known — sound for entailment).
 func (e *linEnv) cond(x ast.Expr, neg bool) []linSys {
 	x = ast.Unparen(x)
+	if id, ok := x.(*ast.Ident); ok {
+		if tv, ok := e.info.Types[id]; ok && tv.Type != nil {
+			if b, ok := tv.Type.Underlying().(*types.Basic); ok && b.Kind() == types.Bool {
+				if f, ok := e.form(id, 0); ok {
+					if neg {
+						return []linSys{{linLE(f, lfConst(0))}} // flag == 0
+					}
+					return []linSys{{linLE(lfConst(1), f)}} // flag == 1
+				}
+			}
+		}
+	}
 	switch t := x.(type) {
 	case *ast.UnaryExpr:
 		if t.Op == token.NOT {
@@ -369,6 +415,24 @@ func linWalk(paths []linPath, list []ast.Stmt, visit func(p linPath, st ast.Stmt
 					}
 					o := p.env.info.ObjectOf(id)
 					if o == nil {
+						continue
+					}
+					// whole-array assignment  a = b : copy the known elements
+					if arr, isArr := o.Type().Underlying().(*types.Array); isArr && j < len(x.Rhs) {
+						if rid, ok := ast.Unparen(x.Rhs[j]).(*ast.Ident); ok {
+							if p.env.elems == nil {
+								p.env.elems = map[string]linForm{}
+							}
+							for k := int64(0); k < arr.Len() && k < 16; k++ {
+								src := fmt.Sprintf("%s[%d]", rid.Name, k)
+								f, ok := p.env.elems[src]
+								if !ok {
+									p.env.atoms[src] = true
+									f = lfAtom(src)
+								}
+								p.env.elems[fmt.Sprintf("%s[%d]", id.Name, k)] = f
+							}
+						}
 						continue
 					}
 					var f linForm
